@@ -344,6 +344,8 @@ func runC13(c *Ctx) {
 	}
 	// pod fields written by registered plugin handlers, per polarity
 	handlerWrites := map[string]map[string]ssa.Instruction{"AllocateFunc": {}, "DeallocateFunc": {}}
+	handlerInPlace := map[string]map[string]ssa.Instruction{"AllocateFunc": {}, "DeallocateFunc": {}}
+	handlersOf := map[string][]*ssa.Function{}
 	if addEH := p.Func(pkgFramework, "Session", "AddEventHandler"); addEH != nil {
 		nreg := 0
 		for _, cs := range p.CallSites(addEH) {
@@ -384,6 +386,10 @@ func runC13(c *Ctx) {
 					for k, v := range podTermWrites(p, h, 3, map[*ssa.Function]bool{}) {
 						handlerWrites[kind][k] = v
 					}
+					for k, v := range podInPlaceWrites(p, h, 3, map[*ssa.Function]bool{}) {
+						handlerInPlace[kind][k] = v
+					}
+					handlersOf[kind] = append(handlersOf[kind], h)
 				}
 			}
 		}
@@ -398,6 +404,7 @@ func runC13(c *Ctx) {
 		}
 		return ""
 	}
+	nCaptured := 0
 	for _, fwd := range sortedKeys(inverseOf) {
 		f, g := method(fwd), method(inverseOf[fwd])
 		if f == nil || g == nil {
@@ -500,7 +507,16 @@ func runC13(c *Ctx) {
 				c.Check(!bad, "O3", "PROV", funcKey(f)+": previous "+fld+" captured before it is overwritten", instrPos(ld), "the value handed to the inverse is read before the first write", "the 'previous "+fld+"' given to the inverse is read after the forward operation already changed it: undo restores the new value")
 			}
 		}
+		// O9/O10: captured values are restored (in time) and are private copies where the operation mutates in place
+		inPlace := podInPlaceWrites(p, f, 2, map[*ssa.Function]bool{})
+		for k, v := range handlerInPlace[firesKind(f)] {
+			if _, ok := inPlace[k]; !ok {
+				inPlace[k] = v
+			}
+		}
+		nCaptured += runC13CaptureRestore(c, fwd, f, g, closure, mcSite, inPlace, handlersOf[firesKind(g)])
 	}
+	c.Floor("O9", "FIELDS captured PodInfo fields", nCaptured, 6)
 
 	// ---- O4: handler polarity and node updates
 	type hexp struct {
